@@ -34,6 +34,9 @@ def _catalogue():
              (frozenset(), frozenset()), {"k": shared, "l": [shared]}]
     # one-element tuples around containers that are not tuples
     vals += [([1, 2],), ({"a": 1},), [([1],), 0], ({1, 2},), (deque([1]),), {"k": ([1, 2],)}]
+    # arrays whose items are created on the fly while iterating (temporaries may re-use an address)
+    vals += [array("d", [1.5, 2.5, 3.5]), [array("d", [0.5, 1.5, 2.5, 3.5]), array("f", [1.0, 2.0, 3.0])],
+             {"k": array("d", [1.5, 2.5, 3.5, 4.5, 5.5])}]
     return vals
 
 
@@ -295,3 +298,37 @@ def _mk_symw(lo, hi, tiers, timeout):
 
 for _lo in range(0, _N, 16):
     _mk_symw(_lo, min(_N, _lo + 16), ("quick", "thorough"), 900)
+
+
+
+# --- one Pretty renderable measured / printed at a sequence of widths (state on the renderable) ------------------------------
+from rich.pretty import Pretty  # noqa: E402
+from vf import catalogue as _cat  # noqa: E402
+
+_HIST_VALUES = [list(range(8)), {"k1": [1, 2, 3], "k2": ("a", "b")}, ["hello world", "中中中"], [[1, 2], [3, [4, 5]]],
+                array("d", [1.5, 2.5, 3.5]), ([1, 2],)]
+
+
+@symx("C16-pretty-renderable-width-history", timeout=900, kind="P", functions=F_P + ["rich/pretty.py:Pretty.__rich_console__",
+                                                                                     "rich/pretty.py:Pretty.__rich_measure__"],
+      bounds="ONE Pretty(value) object for %d values, measured and rendered (Pretty.__rich_console__, before any wrapping by the console) at three solver-chosen widths from 4..44 (step 4) in any "
+             "order (narrow first, wide first, repeated), optionally measured before each print: every output equals what a fresh "
+             "pretty_repr gives for that width, and every measurement equals the widest line of that fresh layout (native)"
+             % len(_HIST_VALUES))
+def c16_pretty_history(e):
+    v = _HIST_VALUES[int(e.mk("value", 0, len(_HIST_VALUES) - 1))]
+    measure_first = bool(e.mkbool("measure_before_print"))
+    p = Pretty(v)
+    for i in range(3):
+        w = 4 * int(e.mk("w%d" % i, 1, 11))
+        c = _cat.console(width=w)
+        fresh = pretty_repr(v, max_width=w)
+        if measure_first:
+            m = p.__rich_measure__(c, w)
+            widest = max(cell_len(line) for line in fresh.splitlines())
+            if (m.minimum, m.maximum) != (widest, widest):
+                return False
+        out = [r for r in p.__rich_console__(c, c.options.update(width=w))]
+        if len(out) != 1 or out[0].plain != fresh:
+            return False
+    return True
